@@ -203,7 +203,8 @@ def until_search(rep, prog, rule="UNTIL-SEARCH"):
                    "runs on the wrong side and the calendar part and the remainder get opposite signs; (2) no failing return of "
                    "the search is selected by the direction of the difference (a test of `sign` against a constant): an overshoot "
                    "is retried with one more day in both directions, otherwise ordinary backward differences that end in the second "
-                   "occurrence of a fold are errors")
+                   "occurrence of a fold are errors; (3) whether the intermediate datetime overshoots the end is decided by comparing "
+                   "INSTANTS (t::sign over the intermediate datetime re-resolved in the zone), never civil datetimes")
     f = prog.jiff("zoned::ZonedDifference::<'a>::until_with_largest_unit")
     T = Terms(f)
     cfg = mir.CFG(f)
@@ -254,6 +255,24 @@ def until_search(rep, prog, rule="UNTIL-SEARCH"):
                       "of the two civil dates with the order of the instants: two instants on one civil date inside a fold (01:30-04 "
                       "and 01:10-05 on 2024-11-03 in America/New_York) get a calendar search on the wrong side and a span of mixed "
                       "signs", f.loc())
+    # (3) the overshoot test of the search compares instants
+    inst = civ = 0
+    for bi, t in mir.iter_calls(f):
+        if t.get("path", "").endswith("util::t::sign") and len(t.get("args", [])) == 2:
+            aa = [T.at_call(bi, t, i) for i in range(2)]
+            if any(any(is_call(y, "DateTime::to_zoned") for y in walk(x)) for x in aa):
+                inst += 1
+            elif any(any(is_call(y, "Date::to_datetime") for y in walk(x)) for x in aa):
+                civ += 1
+    if inst >= 1 and civ == 0:
+        rep.ok(rule, "overshoot test compares instants", how="%d t::sign over the intermediate datetime re-resolved in the zone (to_zoned), "
+               "none over the civil intermediate datetime" % inst, loc=f.loc())
+    else:
+        rep.violation(rule, "overshoot test compares instants", "the search decides whether the intermediate datetime overshoots the end "
+                      "with %d comparison(s) of the re-resolved zoned value and %d of the civil datetime: the day correction was "
+                      "already chosen from the clock times, so a civil comparison never reports an overshoot; when the start's clock "
+                      "time falls into a gap or fold on the end's date (2024-03-01T02:30 until 2024-03-10T03:10 in America/New_York) "
+                      "the result has the wrong sign" % (inst, civ), f.loc())
     # (2)
     bad = []
     n_err = 0
